@@ -302,7 +302,18 @@ func (o Op) Exec(hold bool) (res string, held []Held) {
 		res = treeCanon(a, err)
 		keepTree(a)
 	case ParserValidate:
-		res = canon.Err(parser.ValidateBytes([]byte(o.SQL)))
+		switch o.Flag {
+		case 0, 1:
+			res = canon.Err(parser.ValidateBytes([]byte(o.SQL)))
+		default:
+			// the dialect-taking variants configure a parser of their own
+			ds := keywords.AllDialects()
+			d := ds[len(o.SQL)%len(ds)]
+			if o.Flag == 2 {
+				d = keywords.DialectMySQL
+			}
+			res = string(d) + " " + canon.Err(parser.ValidateBytesWithDialect([]byte(o.SQL), d)) + " " + canon.Err(parser.ValidateWithDialect(o.SQL, d))
+		}
 	case ParserParseBytesWithTokens:
 		a, toks, err := parser.ParseBytesWithTokens([]byte(o.SQL))
 		res = treeCanon(a, err) + " tokens=" + canon.Of(toks)
